@@ -1,8 +1,9 @@
 import VermouthModel.Proto
 /-
 C12 — model of the editing operations of `vermouth.molecule.Molecule`
-(networkx.Graph with ordered nodes + interaction table + citation set + the
-cached highest key `max_node`).
+(networkx.Graph with ordered nodes + bond attribute dicts + interaction table + citation set +
+log entries + force field + the cached highest key `max_node`), of `Block` construction /
+`Block.to_molecule`, and of `System` / `MergeAllMolecules` / `MergeChains`.
 
 A molecule value is immutable here; the pool (`List Mol`) is what the harness
 holds as real `Molecule` objects, so aliasing between a copy/subgraph and its
@@ -28,11 +29,35 @@ def Attrs.update (old new : Attrs) : Attrs :=
 def Attrs.shift (a : Attrs) (roff coff : Int) : Attrs :=
   { a with resid := some (a.resid.getD 1 + roff), cg := some (a.cg.getD 1 + coff) }
 
+/-- attribute dict of a bond (`add_edge(u, v, **attr)`): two representative keys -/
+structure EAttrs where
+  order : Option Int := none
+  kind  : Option String := none
+  deriving Repr, DecidableEq, Inhabited
+
+/-- `dict.update` on a bond's attribute dict -/
+def EAttrs.update (old new : EAttrs) : EAttrs :=
+  { order := new.order.orElse (fun _ => old.order), kind := new.kind.orElse (fun _ => old.kind) }
+
+/-- `version` = `meta.get('version')` (`none`: the key is absent; where the code says
+`meta.get('version', 0)` the model says `version.getD 0`); `edge` = `meta.get('edge', True)` -/
 structure Inter where
   atoms   : List Int
   params  : String
-  version : Int
+  version : Option Int := none
+  edge    : Bool := true
   deriving Repr, DecidableEq, Inhabited
+
+/-- one format map of a log entry: name -> node key (the keys of a `correspondence` dict that
+`merge_molecule` appends are node keys; they are written with `toString`, as the consumer in
+`bin/martinize2` does with `str(k)`) -/
+abbrev FmtArg := List (String × Int)
+
+/-- `log_entries`: `{loglevel: {entry: [fmt_arg, ...]}}`, both dicts in insertion order -/
+abbrev Logs := List (Int × List (String × List FmtArg))
+
+set_option synthInstance.maxSize 512 in
+instance : DecidableEq Logs := inferInstanceAs (DecidableEq (List (Int × List (String × List FmtArg))))
 
 structure Mol where
   nodes   : List (Int × Attrs) := []
@@ -41,6 +66,9 @@ structure Mol where
   cites   : List String := []               -- a set
   nrexcl  : Option Int := none
   maxNode : Option Int := none              -- the cache; never compared with the code
+  eattr   : List ((Int × Int) × EAttrs) := []  -- attribute dicts of the bonds, keyed by the bond
+  ff      : Option String := none           -- `_force_field` (an opaque object compared with `!=`)
+  logs    : Logs := []
   deriving Repr, DecidableEq, Inhabited
 
 def Mol.keys (m : Mol) : List Int := m.nodes.map Prod.fst
@@ -62,13 +90,39 @@ def Mol.addNode (m : Mol) (k : Int) (a : Attrs) : Mol :=
 def Mol.addNodes (m : Mol) (l : List (Int × Attrs)) : Mol :=
   { m with nodes := l.foldl (fun ns p => upsert ns p.1 p.2) m.nodes, maxNode := none }
 
+/-- `add_nodes_from(nodes, **common)` where an entry is a bare key (`none`) or `(key, dict)`:
+networkx updates the node with `common` overridden by the entry's dict -/
+def withCommon (common : Attrs) (l : List (Int × Option Attrs)) : List (Int × Attrs) :=
+  l.map (fun p => (p.1, match p.2 with
+                         | none => common
+                         | some dd => common.update dd))
+
+/-! ### the bond attribute table -/
+
+/-- the undirected bond `{u, v}` -/
+def sameEdge [BEq κ] (u v : κ) (k : κ × κ) : Bool := (k.1 == u && k.2 == v) || (k.1 == v && k.2 == u)
+
+/-- attribute dict of bond `{u, v}` (a bond without entry has the empty dict) -/
+def lookupE [BEq κ] (t : List ((κ × κ) × EAttrs)) (u v : κ) : EAttrs :=
+  match t.find? (fun x => sameEdge u v x.1) with
+  | some x => x.2
+  | none => {}
+
+/-- `datadict.update(attr)` on the dict of bond `{u, v}` -/
+def upsertE [BEq κ] (t : List ((κ × κ) × EAttrs)) (u v : κ) (a : EAttrs) : List ((κ × κ) × EAttrs) :=
+  match t with
+  | [] => [((u, v), a)]
+  | x :: rest => if sameEdge u v x.1 then (x.1, x.2.update a) :: rest else x :: upsertE rest u v a
+
 def interMentions (ks : List Int) (i : Inter) : Bool := i.atoms.any (fun a => ks.contains a)
 
-/-- remove the nodes of `ks` that are present, their edges, and every interaction mentioning a key of `ks` -/
+/-- remove the nodes of `ks` that are present, their edges (with their attribute dicts), and every
+interaction mentioning a key of `ks`; log entries are NOT touched -/
 def Mol.dropNodes (m : Mol) (ks : List Int) : Mol :=
   { m with
     nodes := m.nodes.filter (fun p => !ks.contains p.1),
     edges := m.edges.filter (fun e => !ks.contains e.1 && !ks.contains e.2),
+    eattr := m.eattr.filter (fun x => !ks.contains x.1.1 && !ks.contains x.1.2),
     inters := m.inters.filter (fun ti => !interMentions ks ti.2),
     maxNode := none }
 
@@ -77,36 +131,73 @@ def Mol.addEdge (m : Mol) (u v : Int) : Mol :=
   let m2 := if m1.hasNode v then m1 else { m1 with nodes := m1.nodes ++ [(v, {})], maxNode := none }
   if m2.hasEdge u v then m2 else { m2 with edges := m2.edges ++ [(u, v)] }
 
+/-- `add_edge(u, v, **a)` -/
+def Mol.addEdgeA (m : Mol) (u v : Int) (a : EAttrs) : Mol :=
+  { m.addEdge u v with eattr := upsertE (m.addEdge u v).eattr u v a }
+
+/-- `add_edges_from([(u, v, dict), ...])`; `Molecule.add_edges_from` always resets the cache -/
+def Mol.addEdgesA (m : Mol) (l : List (Int × Int × EAttrs)) : Mol :=
+  { l.foldl (fun acc e => acc.addEdgeA e.1 e.2.1 e.2.2) m with maxNode := none }
+
+/-- `remove_edges_from`: absent bonds are ignored; the attribute dicts go with the bonds -/
+def Mol.dropEdges (m : Mol) (l : List (Int × Int)) : Mol :=
+  { m with edges := m.edges.filter (fun e => !l.any (fun uv => sameEdge uv.1 uv.2 e)),
+           eattr := m.eattr.filter (fun x => !l.any (fun uv => sameEdge uv.1 uv.2 x.1)) }
+
+/-- `zip(atoms[:-1], atoms[1:])` -/
+def consecPairs : List κ → List (κ × κ)
+  | a :: b :: rest => (a, b) :: consecPairs (b :: rest)
+  | _ => []
+
+/-- one `self.add_edges_from(zip(atoms[:-1], atoms[1:]))` (which resets the cache) -/
+def Mol.addPath (m : Mol) (atoms : List Int) : Mol :=
+  { (consecPairs atoms).foldl (fun a e => a.addEdge e.1 e.2) m with maxNode := none }
+
+/-- `make_edges_from_interaction_type(type_)`: for every interaction of the type with
+`meta.get('edge', True)`, `add_edges_from` of the consecutive atom pairs -/
+def Mol.makeEdgesType (m : Mol) (ty : String) : Mol :=
+  (m.inters.filter (fun ti => ti.1 == ty && ti.2.edge)).foldl (fun acc ti => acc.addPath ti.2.atoms) m
+
+def knownEdgeTypes : List String := ["bonds", "angles", "dihedrals", "cmap", "constraints"]
+
+/-- `make_edges_from_interactions()` -/
+def Mol.makeEdgesAll (m : Mol) : Mol := knownEdgeTypes.foldl Mol.makeEdgesType m
+
+/-- `Molecule.clear()` = `nx.Graph.clear()` + cache reset: nodes, bonds and their attribute dicts
+go; interactions, citations, nrexcl, force field and log entries STAY (finding F-C12-4) -/
+def Mol.clear (m : Mol) : Mol := { m with nodes := [], edges := [], eattr := [], maxNode := none }
+
 inductive Outcome where
-  | ok | keyerror | valueerror | nxerror | badindex
+  | ok | keyerror | valueerror | nxerror | badindex | runtimeerror
   deriving Repr, DecidableEq, Inhabited
 
 def Outcome.str : Outcome → String
   | .ok => "ok" | .keyerror => "keyerror" | .valueerror => "valueerror"
-  | .nxerror => "nxerror" | .badindex => "badindex"
+  | .nxerror => "nxerror" | .badindex => "badindex" | .runtimeerror => "runtimeerror"
 
-def Mol.addInter (m : Mol) (ty : String) (atoms : List Int) (params : String) (version : Int) : Mol × Outcome :=
+def Mol.addInter (m : Mol) (ty : String) (atoms : List Int) (params : String) (version : Option Int)
+    (edge : Bool := true) : Mol × Outcome :=
   if atoms.all m.hasNode then
-    ({ m with inters := m.inters ++ [(ty, { atoms := atoms, params := params, version := version })] }, .ok)
+    ({ m with inters := m.inters ++ [(ty, { atoms := atoms, params := params, version := version, edge := edge })] }, .ok)
   else (m, .keyerror)
 
-/-- replace the first interaction of type `ty` with the same atoms and version -/
+/-- replace the first interaction of type `ty` with the same atoms and version (absent = 0) -/
 def replaceFirst (l : List (String × Inter)) (ty : String) (i : Inter) : Option (List (String × Inter)) :=
   match l with
   | [] => none
   | (t, j) :: rest =>
-    if t = ty ∧ j.atoms = i.atoms ∧ j.version = i.version then some ((t, i) :: rest)
+    if t = ty ∧ j.atoms = i.atoms ∧ j.version.getD 0 = i.version.getD 0 then some ((t, i) :: rest)
     else (replaceFirst rest ty i).map (fun r => (t, j) :: r)
 
 def unionSet (a b : List String) : List String := a ++ b.filter (fun x => !a.contains x)
 
-def Mol.addOrReplace (m : Mol) (ty : String) (atoms : List Int) (params : String) (version : Int)
-    (cites : List String) : Mol × Outcome :=
-  let i : Inter := { atoms := atoms, params := params, version := version }
+def Mol.addOrReplace (m : Mol) (ty : String) (atoms : List Int) (params : String) (version : Option Int)
+    (cites : List String) (edge : Bool := true) : Mol × Outcome :=
+  let i : Inter := { atoms := atoms, params := params, version := version, edge := edge }
   match replaceFirst m.inters ty i with
   | some l => ({ m with inters := l, cites := unionSet m.cites cites }, .ok)
   | none =>
-    match m.addInter ty atoms params version with
+    match m.addInter ty atoms params version edge with
     | (m', .ok) => ({ m' with cites := unionSet m'.cites cites }, .ok)
     | (m', e) => (m', e)        -- KeyError raised before the citations are updated
 
@@ -115,7 +206,7 @@ def removeFirst (l : List (String × Inter)) (ty : String) (atoms : List Int) (v
   match l with
   | [] => none
   | (t, j) :: rest =>
-    if t = ty ∧ j.atoms = atoms ∧ j.version = version then some rest
+    if t = ty ∧ j.atoms = atoms ∧ j.version.getD 0 = version then some rest
     else (removeFirst rest ty atoms version).map (fun r => (t, j) :: r)
 
 def Mol.removeInter (m : Mol) (ty : String) (atoms : List Int) (version : Int) : Mol × Outcome :=
@@ -123,21 +214,52 @@ def Mol.removeInter (m : Mol) (ty : String) (atoms : List Int) (version : Int) :
   | some l => ({ m with inters := l }, .ok)
   | none => (m, .keyerror)
 
-/-! ### `remove_matching_interaction` / `interaction_match` -/
+/-! ### `remove_matching_interaction` / `interaction_match` / `attributes_match` / `LinkPredicate` -/
 
-/-- `attributes_match(node, template)`: every attribute the template gives must be equal -/
-def attrsMatch (node tmpl : Attrs) : Bool :=
-  (tmpl.name.isNone || tmpl.name == node.name) && (tmpl.resid.isNone || tmpl.resid == node.resid) &&
-  (tmpl.cg.isNone || tmpl.cg == node.cg) && (tmpl.chain.isNone || tmpl.chain == node.chain)
+/-- a value of a template dict: a plain value (Python `None` included), `Choice(values)` or
+`NotDefinedOrNot(value)` -/
+inductive Pred (α : Type) where
+  | eq (v : Option α)
+  | choice (vs : List (Option α))
+  | notDefOrNot (v : Option α)
+  deriving Repr, DecidableEq, Inhabited
+
+/-- one key of `attributes_match`; `x` = `attributes.get(key)` (`none`: the key is absent — the
+harness never stores an explicit `None` in a node or meta dict).
+plain value: `attributes.get(key) == value`; `Choice`: `node.get(key) in self.value`;
+`NotDefinedOrNot`: `key not in node or node[key] != self.value` -/
+def Pred.holds [BEq α] (p : Pred α) (x : Option α) : Bool :=
+  match p with
+  | .eq v => x == v
+  | .choice vs => vs.contains x
+  | .notDefOrNot v => x.isNone || x != v
+
+/-- `none` = the template dict does not have the key -/
+def predOk [BEq α] (p : Option (Pred α)) (x : Option α) : Bool :=
+  match p with
+  | none => true
+  | some q => q.holds x
+
+structure TAttrs where
+  name  : Option (Pred String) := none
+  resid : Option (Pred Int) := none
+  cg    : Option (Pred Int) := none
+  chain : Option (Pred String) := none
+  deriving Repr, DecidableEq, Inhabited
+
+/-- `attributes_match(node, template)`: every key the template gives must hold -/
+def attrsMatch (node : Attrs) (tmpl : TAttrs) : Bool :=
+  predOk tmpl.name node.name && predOk tmpl.resid node.resid &&
+  predOk tmpl.cg node.cg && predOk tmpl.chain node.chain
 
 /-- template of `remove_matching_interaction`: atoms, optional parameters (`none` = empty list =
-any), optional version in the meta template (`none` = meta template without version), optional
-per-atom attribute templates (`none` = plain `Interaction`, `some` = `DeleteInteraction`) -/
+any), optional `version` key of the meta template (a plain value — 0 included — or a predicate),
+optional per-atom attribute templates (`none` = plain `Interaction`, `some` = `DeleteInteraction`) -/
 structure Template where
   atoms  : List Int
   params : Option String := none
-  version : Option Int := none
-  atomAttrs : Option (List Attrs) := none
+  version : Option (Pred Int) := none
+  atomAttrs : Option (List TAttrs) := none
   deriving Repr, DecidableEq, Inhabited
 
 /-- `interaction_match(molecule, interaction, template)`.  An atom of the interaction that is
@@ -150,7 +272,7 @@ def interMatch (nodes : List (Int × Attrs)) (t : Template) (i : Inter) : Bool :
        match lookupAttrs nodes ax.1 with
        | some na => attrsMatch na ax.2
        | none => false)) &&
-  (t.version.isNone || t.version == some i.version)
+  predOk t.version i.version
 
 /-- remove the first interaction of type `ty` satisfying `p` -/
 def removeFirstP (l : List (String × Inter)) (ty : String) (p : Inter → Bool) :
@@ -172,7 +294,8 @@ def edgeBetween (a b : List Int) (e : Int × Int) : Bool :=
   (a.contains e.1 && b.contains e.2) || (a.contains e.2 && b.contains e.1)
 
 def Mol.pruneEdges (m : Mol) (a b : List Int) : Mol :=
-  { m with edges := m.edges.filter (fun e => !edgeBetween a b e) }
+  { m with edges := m.edges.filter (fun e => !edgeBetween a b e),
+           eattr := m.eattr.filter (fun x => !edgeBetween a b x.1) }
 
 /-- `selectors.filter_minimal(molecule, lambda atom: atom.get('atomname') == n)` -/
 def Mol.selectByName (m : Mol) (n : String) : List Int :=
@@ -185,16 +308,21 @@ def dedupKeys : List Int → List Int
   | [] => []
   | k :: rest => k :: (dedupKeys rest).filter (fun x => x != k)
 
-/-- `Molecule.subgraph(ks)`; `none` = KeyError (a key is not a node). -/
+/-- `Molecule.subgraph(ks)`; `none` = KeyError (a key is not a node).  The new molecule gets the
+bonds between requested atoms with (copies of) their attribute dicts, the citations, nrexcl and
+force field, and EMPTY log entries. -/
 def Mol.subgraph (m : Mol) (ks : List Int) : Option Mol :=
   if ks.all m.hasNode then
     some { nodes := (dedupKeys ks).filterMap (fun k => (lookupAttrs m.nodes k).map (fun a => (k, a))),
            edges := m.edges.filter (fun e => ks.contains e.1 && ks.contains e.2),
            inters := m.inters.filter (fun ti => ti.2.atoms.all (fun a => ks.contains a)),
-           cites := m.cites, nrexcl := m.nrexcl, maxNode := none }
+           cites := m.cites, nrexcl := m.nrexcl, maxNode := none,
+           eattr := m.eattr.filter (fun x => ks.contains x.1.1 && ks.contains x.1.2),
+           ff := m.ff, logs := [] }
   else none
 
-def Mol.copy (m : Mol) : Mol := (m.subgraph m.keys).getD m
+/-- `Molecule.copy()`: the subgraph on all nodes plus a deep copy of the log entries -/
+def Mol.copy (m : Mol) : Mol := { (m.subgraph m.keys).getD m with logs := m.logs }
 
 def maxKey : List Int → Option Int
   | [] => none
@@ -224,9 +352,63 @@ def renameEdges (keys : List Int) (offset : Int) : List (Int × Int) → Option 
       let r ← renameEdges keys offset rest
       pure (if u' = v' then r else (u', v') :: r)
 
+/-- the attribute dicts of the newcomer's bonds, re-keyed (`add_edge(c[u], c[v], **attrs)`; self
+loops are skipped like the bonds themselves) -/
+def renameEAttr (keys : List Int) (offset : Int) (t : List ((Int × Int) × EAttrs)) : List ((Int × Int) × EAttrs) :=
+  t.filterMap (fun x =>
+    match corrOf keys offset x.1.1, corrOf keys offset x.1.2 with
+    | some u, some v => if u = v then none else some ((u, v), x.2)
+    | _, _ => none)
+
 def enumFrom (start : Int) : List (Int × Attrs) → List (Int × Attrs)
   | [] => []
   | (_, a) :: rest => (start, a) :: enumFrom (start + 1) rest
+
+/-! ### log entries -/
+
+def extendEntry (es : List (String × List FmtArg)) (entry : String) (args : List FmtArg) :
+    List (String × List FmtArg) :=
+  match es with
+  | [] => [(entry, args)]
+  | (e, a) :: rest => if e = entry then (e, a ++ args) :: rest else (e, a) :: extendEntry rest entry args
+
+/-- `log_entries[lvl][entry] += args` on the nested defaultdict -/
+def extendLog (logs : Logs) (lvl : Int) (entry : String) (args : List FmtArg) : Logs :=
+  match logs with
+  | [] => [(lvl, [(entry, args)])]
+  | (l, es) :: rest =>
+    if l = lvl then (l, extendEntry es entry args) :: rest else (l, es) :: extendLog rest lvl entry args
+
+/-- iteration order of `for loglevel, entries in log_entries.items(): for entry, fmt_args in entries.items()` -/
+def flattenLogs (logs : Logs) : List (Int × String × List FmtArg) :=
+  logs.flatMap (fun le => le.2.map (fun ea => (le.1, ea.1, ea.2)))
+
+/-- `{name: correspondence[old] for (name, old) in fmt_arg.items()}`; `none` = KeyError -/
+def renameArg (keys : List Int) (offset : Int) (fa : FmtArg) : Option FmtArg :=
+  fa.mapM (fun p => (corrOf keys offset p.2).map (fun k => (p.1, k)))
+
+def corrArgFrom (start : Int) : List Int → FmtArg
+  | [] => []
+  | k :: rest => (toString k, start) :: corrArgFrom (start + 1) rest
+
+/-- the `correspondence` dict itself, which `merge_molecule` appends as one more format map -/
+def corrArg (keys : List Int) (offset : Int) : FmtArg := corrArgFrom (offset + 1) keys
+
+/-- the last loop of `merge_molecule`: every entry of the newcomer, renumbered, plus the
+correspondence, is appended to the same entry of `self`.  `false` = a format map mentions a key
+that is not a node of the newcomer: KeyError, the entries before it are already in -/
+def mergeLogs (acc : Logs) (keys : List Int) (offset : Int) : List (Int × String × List FmtArg) → Logs × Bool
+  | [] => (acc, true)
+  | (l, e, args) :: rest =>
+    match args.mapM (renameArg keys offset) with
+    | none => (acc, false)
+    | some r => mergeLogs (extendLog acc l e (r ++ [corrArg keys offset])) keys offset rest
+
+/-- `log_entries[lvl][entry] += args`, the way `do_links` / `do_mapping` add entries -/
+def Mol.addLog (m : Mol) (lvl : Int) (entry : String) (args : List FmtArg) : Mol :=
+  { m with logs := extendLog m.logs lvl entry args }
+
+/-! ### merge_molecule -/
 
 /-- `if self.nrexcl is None and not self: self.nrexcl = molecule.nrexcl` -/
 def mergeNrexcl (self other : Mol) : Option Int :=
@@ -250,7 +432,9 @@ def Mol.mergeOffs (self : Mol) : Option (Int × Int × Int) :=
       | none => none
       | some a => some (last, a.resid.getD 1, a.cg.getD 1)
 
-/-- the body of `merge_molecule` once nrexcl and the offsets are known -/
+/-- the body of `merge_molecule` once nrexcl and the offsets are known.  Order of the code: nodes,
+cache, interactions, bonds (with their attribute dicts), citations, log entries; a KeyError in the
+log-entry loop leaves everything before it in place (finding F-C12-6) -/
 def Mol.mergeCore (self other : Mol) (nrexcl : Option Int) (offset roff coff : Int) : Mol × Outcome :=
   let okeys := other.keys
   let newNodes := enumFrom (offset + 1)
@@ -262,38 +446,85 @@ def Mol.mergeCore (self other : Mol) (nrexcl : Option Int) (offset roff coff : I
     -- add_interaction validates the atoms (all are new nodes)
     let m2 : Mol := { m1 with inters := m1.inters ++ ri }
     let m3 : Mol := re.foldl (fun m e => m.addEdge e.1 e.2) m2
+    let lg := mergeLogs self.logs okeys offset (flattenLogs other.logs)
     ({ m3 with cites := unionSet self.cites other.cites,
-               maxNode := some (offset + (other.nodes.length : Int)) }, .ok)
+               maxNode := some (offset + (other.nodes.length : Int)),
+               eattr := self.eattr ++ renameEAttr okeys offset other.eattr,
+               logs := lg.1 }, if lg.2 then .ok else .keyerror)
   | _, _ => (self, .keyerror)              -- dangling atom in `other` (unreachable under the invariant)
 
-/-- `self.merge_molecule(other)` -/
+/-- `self.merge_molecule(other)` for two different objects -/
 def Mol.merge (self other : Mol) : Mol × Outcome :=
+  if self.ff ≠ other.ff then (self, .valueerror) else
   let nrexcl := mergeNrexcl self other
   if nrexcl ≠ other.nrexcl then (self, .valueerror) else
   match self.mergeOffs with
   | none => (self, .keyerror)
   | some (offset, roff, coff) => self.mergeCore other nrexcl offset roff coff
 
+/-- `m.merge_molecule(m)` (finding F-C12-5).  The loops of `merge_molecule` iterate over the very
+containers they add to:
+* no atom: the normal path (only the log entries grow);
+* two or more atoms: the first new atom is added (fresh key, shifted copy of the first atom) and
+  the next step of `for node in molecule.nodes()` raises `RuntimeError: OrderedDict mutated during
+  iteration`; nothing else of the merge has happened;
+* exactly one atom `k`: the node loop ends normally (one new atom `k'`).  Without interactions the
+  rest is the normal path, i.e. a correct duplication.  With interactions, the loop over the first
+  non-empty interaction list appends a renamed copy of each of its interactions to that same list,
+  then reaches the first copy, whose atoms are not keys of the correspondence: KeyError.  (The
+  model takes the type of the first interaction for "the first non-empty list"; the order of the
+  type dict is not part of the state, the harness only merges a one-atom molecule into itself when
+  it has interactions of a single type.) -/
+def Mol.selfMerge (m : Mol) : Mol × Outcome :=
+  match m.nodes with
+  | [] => m.merge m
+  | [first] =>
+    match m.inters with
+    | [] => m.merge m
+    | (ty, _) :: _ =>
+      match m.mergeOffs with
+      | some (offset, roff, coff) =>
+        ({ m with nodes := upsert m.nodes (offset + 1) (first.2.shift roff coff),
+                  inters := m.inters ++ (m.inters.filter (fun ti => ti.1 == ty)).map
+                    (fun ti => (ti.1, { ti.2 with atoms := ti.2.atoms.map (fun _ => offset + 1) })),
+                  maxNode := some (offset + 1) }, .keyerror)
+      | none => (m, .keyerror)
+  | first :: _ :: _ =>
+    match m.mergeOffs with
+    | some (offset, roff, coff) =>
+      ({ m with nodes := upsert m.nodes (offset + 1) (first.2.shift roff coff), maxNode := none }, .runtimeerror)
+    | none => (m, .keyerror)
+
 /-! ### Blocks (string node names) -/
+
+structure BInter where
+  ty      : String
+  atoms   : List String
+  params  : String
+  version : Option Int := none
+  edge    : Bool := true
+  deriving Repr, DecidableEq, Inhabited
 
 structure Block where
   nodes  : List (String × Attrs) := []
   edges  : List (String × String) := []
-  inters : List (String × List String × String × Int) := []   -- type, atom names, params, version
+  inters : List BInter := []
   cites  : List String := []
   nrexcl : Option Int := none
   name   : String := ""
-  deriving Repr, Inhabited
+  eattr  : List ((String × String) × EAttrs) := []
+  ff     : Option String := none
+  logs   : List (Int × String) := []     -- `log_entries[lvl][entry] = []` as the force-field parser leaves them
+  deriving Repr, DecidableEq, Inhabited
 
 def nameIdx (names : List String) (off : Int) (n : String) : Option Int :=
   match names.findIdx? (fun x => x == n) with
   | some i => some (off + (i : Int))
   | none => none
 
-def blockInter (names : List String) (off : Int) (x : String × List String × String × Int) :
-    Option (String × Inter) :=
-  match x.2.1.mapM (nameIdx names off) with
-  | some a => some (x.1, { atoms := a, params := x.2.2.1, version := x.2.2.2 })
+def blockInter (names : List String) (off : Int) (x : BInter) : Option (String × Inter) :=
+  match x.atoms.mapM (nameIdx names off) with
+  | some a => some (x.ty, { atoms := a, params := x.params, version := x.version, edge := x.edge })
   | none => none
 
 def blockEdge (names : List String) (off : Int) (e : String × String) : Option (Int × Int) :=
@@ -301,36 +532,109 @@ def blockEdge (names : List String) (off : Int) (e : String × String) : Option 
   | some u, some v => some (u, v)
   | _, _ => none
 
-/-- `Block.to_molecule(atom_offset, offset_resid, offset_charge_group)`; `none` = KeyError. -/
+def blockEAttr (names : List String) (off : Int) (t : List ((String × String) × EAttrs)) :
+    List ((Int × Int) × EAttrs) :=
+  t.filterMap (fun x =>
+    match nameIdx names off x.1.1, nameIdx names off x.1.2 with
+    | some u, some v => some ((u, v), x.2)
+    | _, _ => none)
+
+/-- `Block.to_molecule(atom_offset, offset_resid, offset_charge_group)`; `none` = KeyError.
+Citations and log entries are copied, the force field is the block's. -/
 def Block.toMolecule (b : Block) (atomOff residOff cgOff : Int) : Option Mol :=
   let names := b.nodes.map Prod.fst
   let nodes := enumFrom atomOff
     (b.nodes.map (fun p => ((0 : Int), p.2.shift residOff cgOff)))
   match b.inters.mapM (blockInter names atomOff), b.edges.mapM (blockEdge names atomOff) with
   | some inters, some edges =>
-    let m0 : Mol := { nodes := nodes, inters := inters, cites := b.cites, nrexcl := b.nrexcl }
+    let m0 : Mol := { nodes := nodes, inters := inters, cites := b.cites, nrexcl := b.nrexcl,
+                      eattr := blockEAttr names atomOff b.eattr, ff := b.ff,
+                      logs := b.logs.foldl (fun acc le => extendLog acc le.1 le.2 []) [] }
     some (edges.foldl (fun m e => m.addEdge e.1 e.2) m0)
   | _, _ => none
+
+/-! #### building a block with its own editing methods -/
+
+inductive BStep where
+  | addAtom (a : Attrs)                          -- `Block.add_atom(dict)`
+  | addNode (n : String) (a : Attrs)             -- `add_node(n, **a)`
+  | addEdge (u v : String) (a : EAttrs)          -- `add_edge(u, v, **a)` (creates missing nodes)
+  | addInter (i : BInter)                        -- `add_interaction`: KeyError on an unknown atom
+  | rawInter (i : BInter)                        -- `interactions[ty].append(...)` as the parsers do
+  | makeEdges (ty : String)                      -- `make_edges_from_interaction_type(ty)`
+  | log (lvl : Int) (entry : String)             -- `log_entries[lvl][entry] = []`
+  deriving Repr, Inhabited
+
+def upsertB (nodes : List (String × Attrs)) (n : String) (a : Attrs) : List (String × Attrs) :=
+  match nodes with
+  | [] => [(n, a)]
+  | (n', a') :: rest => if n' = n then (n', a'.update a) :: rest else (n', a') :: upsertB rest n a
+
+def Block.names (b : Block) : List String := b.nodes.map Prod.fst
+def Block.hasEdge (b : Block) (u v : String) : Bool := b.edges.contains (u, v) || b.edges.contains (v, u)
+
+def Block.ensure (b : Block) (u : String) : Block :=
+  if b.names.contains u then b else { b with nodes := b.nodes ++ [(u, {})] }
+
+def Block.addEdge (b : Block) (u v : String) (a : EAttrs) : Block :=
+  let b2 := (b.ensure u).ensure v
+  let b3 := if b2.hasEdge u v then b2 else { b2 with edges := b2.edges ++ [(u, v)] }
+  { b3 with eattr := upsertE b3.eattr u v a }
+
+def Block.makeEdges (b : Block) (ty : String) : Block :=
+  (b.inters.filter (fun i => i.ty == ty && i.edge)).foldl
+    (fun acc i => (consecPairs i.atoms).foldl (fun a e => a.addEdge e.1 e.2 {}) acc) b
+
+def Block.bstep (b : Block) : BStep → Except Outcome Block
+  | .addAtom a =>
+    match a.name with
+    | none => .error .valueerror                 -- 'Atom has no atomname'
+    | some n => .ok { b with nodes := upsertB b.nodes n a }
+  | .addNode n a => .ok { b with nodes := upsertB b.nodes n a }
+  | .addEdge u v a => .ok (b.addEdge u v a)
+  | .addInter i =>
+    if i.atoms.all b.names.contains then .ok { b with inters := b.inters ++ [i] } else .error .keyerror
+  | .rawInter i => .ok { b with inters := b.inters ++ [i] }
+  | .makeEdges ty => .ok (b.makeEdges ty)
+  | .log lvl entry => .ok { b with logs := if b.logs.contains (lvl, entry) then b.logs else b.logs ++ [(lvl, entry)] }
+
+def Block.build (b0 : Block) : List BStep → Except Outcome Block
+  | [] => .ok b0
+  | s :: rest =>
+    match b0.bstep s with
+    | .ok b => Block.build b rest
+    | .error e => .error e
 
 /-! ### The pool state machine -/
 
 inductive Op where
   | addNode (m : Nat) (k : Int) (a : Attrs)
   | addNodes (m : Nat) (l : List (Int × Attrs))
+  | addNodesC (m : Nat) (l : List (Int × Option Attrs)) (common : Attrs)
   | removeNode (m : Nat) (k : Int)
   | removeNodes (m : Nat) (ks : List Int)
   | addEdge (m : Nat) (u v : Int)
-  | addInter (m : Nat) (ty : String) (atoms : List Int) (params : String) (version : Int)
-  | addOrReplace (m : Nat) (ty : String) (atoms : List Int) (params : String) (version : Int) (cites : List String)
+  | addEdgeA (m : Nat) (u v : Int) (a : EAttrs)
+  | addEdgesA (m : Nat) (l : List (Int × Int × EAttrs))
+  | removeEdge (m : Nat) (u v : Int)
+  | removeEdges (m : Nat) (l : List (Int × Int))
+  | makeEdgesType (m : Nat) (ty : String)
+  | makeEdgesAll (m : Nat)
+  | clear (m : Nat)
+  | addInter (m : Nat) (ty : String) (atoms : List Int) (params : String) (version : Option Int) (edge : Bool := true)
+  | addOrReplace (m : Nat) (ty : String) (atoms : List Int) (params : String) (version : Option Int)
+      (cites : List String) (edge : Bool := true)
   | removeInter (m : Nat) (ty : String) (atoms : List Int) (version : Int)
   | removeMatching (m : Nat) (ty : String) (t : Template)
   | pruneEdges (m : Nat) (a b : List Int)
   | pruneByName (m : Nat) (na : String) (nb : Option String)
+  | addLog (m : Nat) (lvl : Int) (entry : String) (args : List FmtArg)
   | copy (m : Nat)
   | subgraph (m : Nat) (ks : List Int)
   | merge (m j : Nat)
-  | newMol (nrexcl : Option Int)
+  | newMol (nrexcl : Option Int) (ff : Option String := none)
   | fromBlock (b : Block) (atomOff residOff cgOff : Int)
+  | buildBlock (b0 : Block) (steps : List BStep) (atomOff residOff cgOff : Int)
   deriving Repr, Inhabited
 
 abbrev Pool := List Mol
@@ -342,18 +646,33 @@ def onMol (p : Pool) (i : Nat) (f : Mol → Mol × Outcome) : Pool × Outcome :=
   | none => (p, .badindex)
   | some m => let r := f m; (setAt p i r.1, r.2)
 
+def fromBlockStep (p : Pool) (b : Block) (ao ro co : Int) : Pool × Outcome :=
+  match b.toMolecule ao ro co with
+  | some m => (p ++ [m], .ok)
+  | none => (p, .keyerror)
+
 def step (p : Pool) : Op → Pool × Outcome
   | .addNode i k a => onMol p i (fun m => (m.addNode k a, .ok))
   | .addNodes i l => onMol p i (fun m => (m.addNodes l, .ok))
+  | .addNodesC i l common => onMol p i (fun m => (m.addNodes (withCommon common l), .ok))
   | .removeNode i k => onMol p i (fun m => if m.hasNode k then (m.dropNodes [k], .ok) else (m, .nxerror))
   | .removeNodes i ks => onMol p i (fun m => (m.dropNodes ks, .ok))
   | .addEdge i u v => onMol p i (fun m => (m.addEdge u v, .ok))
-  | .addInter i ty atoms params version => onMol p i (fun m => m.addInter ty atoms params version)
-  | .addOrReplace i ty atoms params version cites => onMol p i (fun m => m.addOrReplace ty atoms params version cites)
+  | .addEdgeA i u v a => onMol p i (fun m => (m.addEdgeA u v a, .ok))
+  | .addEdgesA i l => onMol p i (fun m => (m.addEdgesA l, .ok))
+  | .removeEdge i u v => onMol p i (fun m => if m.hasEdge u v then (m.dropEdges [(u, v)], .ok) else (m, .nxerror))
+  | .removeEdges i l => onMol p i (fun m => (m.dropEdges l, .ok))
+  | .makeEdgesType i ty => onMol p i (fun m => (m.makeEdgesType ty, .ok))
+  | .makeEdgesAll i => onMol p i (fun m => (m.makeEdgesAll, .ok))
+  | .clear i => onMol p i (fun m => (m.clear, .ok))
+  | .addInter i ty atoms params version edge => onMol p i (fun m => m.addInter ty atoms params version edge)
+  | .addOrReplace i ty atoms params version cites edge =>
+      onMol p i (fun m => m.addOrReplace ty atoms params version cites edge)
   | .removeInter i ty atoms version => onMol p i (fun m => m.removeInter ty atoms version)
   | .removeMatching i ty t => onMol p i (fun m => m.removeMatching ty t)
   | .pruneEdges i a b => onMol p i (fun m => (m.pruneEdges a b, .ok))
   | .pruneByName i na nb => onMol p i (fun m => (m.pruneByName na nb, .ok))
+  | .addLog i lvl entry args => onMol p i (fun m => (m.addLog lvl entry args, .ok))
   | .copy i => match p[i]? with
       | none => (p, .badindex)
       | some m => (p ++ [m.copy], .ok)
@@ -363,14 +682,16 @@ def step (p : Pool) : Op → Pool × Outcome
         | some s => (p ++ [s], .ok)
         | none => (p, .keyerror)
   | .merge i j =>
-      if i = j then (p, .badindex) else
+      if i = j then onMol p i Mol.selfMerge else
       match p[i]?, p[j]? with
       | some a, some b => let r := a.merge b; (setAt p i r.1, r.2)
       | _, _ => (p, .badindex)
-  | .newMol n => (p ++ [{ nrexcl := n }], .ok)
-  | .fromBlock b ao ro co => match b.toMolecule ao ro co with
-      | some m => (p ++ [m], .ok)
-      | none => (p, .keyerror)
+  | .newMol n ff => (p ++ [{ nrexcl := n, ff := ff }], .ok)
+  | .fromBlock b ao ro co => fromBlockStep p b ao ro co
+  | .buildBlock b0 steps ao ro co =>
+      match b0.build steps with
+      | .ok b => fromBlockStep p b ao ro co
+      | .error e => (p, e)
 
 def run (p : Pool) (ops : List Op) : Pool := ops.foldl (fun s o => (step s o).1) p
 
@@ -388,14 +709,28 @@ def mergeFold (acc : Mol) : List Mol → Mol × Outcome
     | (a, .ok) => mergeFold a rest
     | (a, e) => (a, e)
 
+/-- one step of the fold when the operand may be the accumulator object itself (`none`) -/
+def mergeS (acc : Mol) : Option Mol → Mol × Outcome
+  | some x => acc.merge x
+  | none => acc.selfMerge
+
+/-- the same fold when the operand list may mention the accumulator object itself (`none`) -/
+def mergeFoldS (acc : Mol) : List (Option Mol) → Mol × Outcome
+  | [] => (acc, .ok)
+  | o :: rest =>
+    match mergeS acc o with
+    | (a, .ok) => mergeFoldS a rest
+    | (a, e) => (a, e)
+
 structure State where
   pool : Pool := []
   systems : List (List Nat) := []
+  sysff : List (Option String) := []      -- `System.force_field`, parallel to `systems`
   deriving Repr, Inhabited, DecidableEq
 
 inductive SOp where
   | mol (op : Op)
-  | newSys
+  | newSys (ff : Option String := none)
   | addMol (s i : Nat)
   | copySys (s : Nat)
   | mergeAll (s : Nat)
@@ -403,6 +738,10 @@ inductive SOp where
   deriving Repr, Inhabited
 
 def getMols (p : Pool) (idxs : List Nat) : Option (List Mol) := idxs.mapM (fun i => p[i]?)
+
+/-- operands of MergeAllMolecules when the first molecule (index `i0`) is listed again -/
+def getMolsS (p : Pool) (i0 : Nat) (idxs : List Nat) : Option (List (Option Mol)) :=
+  idxs.mapM (fun i => if i = i0 then some none else (p[i]?).map some)
 
 /-- `molecule_chains.issubset(_chains)`; with `all_chains` the set holds every chain of the system -/
 def chainSelected (chains : List (Option String)) (all : Bool) (m : Mol) : Bool :=
@@ -416,15 +755,37 @@ def replaceSelected (n : Nat) : List (Nat × Bool) → Bool → List Nat
     if sel then (if done then replaceSelected n rest true else n :: replaceSelected n rest true)
     else i :: replaceSelected n rest done
 
-/-- `Molecule()` as created inside `merge_chains` -/
-def freshMerged (nrexcl : Option Int) : Mol := { nrexcl := nrexcl, cites := ["vermouth"] }
+/-- `Molecule()` as created inside `merge_chains` (`merged._force_field = system.force_field`) -/
+def freshMerged (nrexcl : Option Int) (ff : Option String := none) : Mol :=
+  { nrexcl := nrexcl, cites := ["vermouth"], ff := ff }
+
+/-- `molecule._force_field = value` for the listed pool members (the `force_field` setter) -/
+def setFFs (p : Pool) (idxs : List Nat) (f : Option String) : Pool :=
+  idxs.foldl (fun q k => match q[k]? with
+                         | some x => q.set k { x with ff := f }
+                         | none => q) p
+
+def State.ffOf (st : State) (s : Nat) : Option String := (st.sysff[s]?).join
+
+/-- `if molecule.force_field is None: molecule._force_field = self.force_field` -/
+def takeFF (sff mff : Option String) : Option String := if mff.isNone then sff else mff
 
 def sstep (st : State) : SOp → State × Outcome
   | .mol op => let r := step st.pool op; ({ st with pool := r.1 }, r.2)
-  | .newSys => ({ st with systems := st.systems ++ [[]] }, .ok)
+  | .newSys ff => ({ st with systems := st.systems ++ [[]], sysff := st.sysff ++ [ff] }, .ok)
   | .addMol s i =>
       match st.systems[s]?, st.pool[i]? with
-      | some l, some _ => ({ st with systems := st.systems.set s (l ++ [i]) }, .ok)
+      | some l, some m =>
+        let sff := st.ffOf s
+        let mff := takeFF sff m.ff
+        -- `if molecule.force_field != self.force_field: raise KeyError` (only when both are set)
+        if sff.isSome && mff != sff then (st, .keyerror) else
+        -- `if self.force_field is None: self.force_field = molecule.force_field` (setter: every
+        -- molecule already in the system gets it)
+        let pool1 := st.pool.set i { m with ff := mff }
+        ({ pool := if sff.isNone then setFFs pool1 l mff else pool1,
+           systems := st.systems.set s (l ++ [i]),
+           sysff := if sff.isNone then st.sysff.set s mff else st.sysff }, .ok)
       | _, _ => (st, .badindex)
   | .copySys s =>
       match st.systems[s]? with
@@ -432,19 +793,30 @@ def sstep (st : State) : SOp → State × Outcome
       | some l =>
         match getMols st.pool l with
         | none => (st, .badindex)
-        | some ms => ({ pool := st.pool ++ ms.map Mol.copy,
-                        systems := st.systems ++ [List.range' st.pool.length ms.length] }, .ok)
+        | some ms =>
+          -- `new_system.force_field = self.force_field` sets it on every copy
+          ({ pool := st.pool ++ ms.map (fun m => { m.copy with ff := st.ffOf s }),
+             systems := st.systems ++ [List.range' st.pool.length ms.length],
+             sysff := st.sysff ++ [st.ffOf s] }, .ok)
   | .mergeAll s =>
       match st.systems[s]? with
       | none => (st, .badindex)
       | some [] => (st, .ok)
       | some (i0 :: rest) =>
-        if rest.contains i0 then (st, .badindex) else     -- merging an object into itself
+        if rest.contains i0 then
+          -- the first molecule is listed again: at that point it is merged into itself
+          match st.pool[i0]?, getMolsS st.pool i0 rest with
+          | some m0, some ms =>
+            let r := mergeFoldS m0 ms
+            ({ st with pool := st.pool.set i0 r.1,
+                       systems := if r.2 = .ok then st.systems.set s [i0] else st.systems }, r.2)
+          | _, _ => (st, .badindex)
+        else
         match st.pool[i0]?, getMols st.pool rest with
         | some m0, some ms =>
           let r := mergeFold m0 ms
-          ({ pool := st.pool.set i0 r.1,
-             systems := if r.2 = .ok then st.systems.set s [i0] else st.systems }, r.2)
+          ({ st with pool := st.pool.set i0 r.1,
+                     systems := if r.2 = .ok then st.systems.set s [i0] else st.systems }, r.2)
         | _, _ => (st, .badindex)
   | .mergeChains s chains all =>
       match st.systems[s]? with
@@ -458,10 +830,10 @@ def sstep (st : State) : SOp → State × Outcome
           match (ms.zip sels).filter (fun x => x.2) with
           | [] => (st, .ok)
           | (f, _) :: more =>
-            let r := mergeFold (freshMerged f.nrexcl) (f :: more.map Prod.fst)
+            let r := mergeFold (freshMerged f.nrexcl (st.ffOf s)) (f :: more.map Prod.fst)
             if r.2 = .ok then
-              ({ pool := st.pool ++ [r.1],
-                 systems := st.systems.set s (replaceSelected st.pool.length (l.zip sels) false) }, .ok)
+              ({ st with pool := st.pool ++ [r.1],
+                         systems := st.systems.set s (replaceSelected st.pool.length (l.zip sels) false) }, .ok)
             else (st, r.2)
 
 def srun (st : State) (ops : List SOp) : State := ops.foldl (fun s o => (sstep s o).1) st
